@@ -155,6 +155,9 @@ _vbi_pfc_demux_decode		(vbi_pfc_demux *	dx,
 
 			col = bp + 4; /* 2 pmag, 1 bp, 1 bs */
 			bs = vbi_unham8 (buffer[col - 1]);
+		} else if (col >= 42) {
+			/* The block ended with the last byte of the packet. */
+			return TRUE;
 		} else {
 			while (FILLER_BYTE ==
 			       (bs = vbi_unham8 (buffer[col++]))) {
